@@ -64,6 +64,12 @@ def positional(p0='-', p1='-', p2='-', p3='-', *rest, **kw):
     return [p0, p1, p2, p3, list(rest), sorted(kw.items())]
 
 
+def echo(**kwargs):
+    """A target returning what it received."""
+    LOG.append([_who(), 'call', 'echo', _flat(kwargs, [])])
+    return dict(kwargs)
+
+
 def raiser(token='x'):
     LOG.append([_who(), 'call', 'raiser_' + str(token), []])
     raise RuntimeError('user code failure ' + str(token))
@@ -89,6 +95,7 @@ def install():
     m.rec = rec
     m.raiser = raiser
     m.positional = positional
+    m.echo = echo
     m.__file__ = '<simrec>'
     sys.modules['simrec'] = m
     del LOG[:]
